@@ -50,7 +50,9 @@ Qed.
 
 Ltac solve_shape_wf Hsdlt :=
   unfold shape_wf, ndim; cbn [shape sdim length];
-  split; [lia|]; split; [repeat constructor; lia | try exact Hsdlt].
+  split; [lia|]; split; [repeat (apply Forall_cons; [lia|]); apply Forall_nil | try exact Hsdlt].
+
+Ltac wd Hsh := unfold with_dim, with_shape; cbn [shape sdim aff has_time has_vec set_nth option_map]; rewrite ?Hsh.
 
 Lemma merge_geometry h0 hrest dim affine slice_dim hfull :
   merge_hdr (h0 :: hrest) dim affine slice_dim = Ok hfull ->
@@ -66,7 +68,6 @@ Proof.
   set (n := S (length hrest)) in *. assert (Hn1 : 1 <= n) by (subst n; lia). clearbody n.
   pose proof (Hcls TSamples) as HclsT. pose proof (Hcls VSamples) as HclsV. clear Hcls.
   destruct hfull as [fsh fsd fa fht fhv]. cbn [shape sdim] in *. subst fsh fsd.
-  unfold with_dim, with_shape. cbn [shape sdim aff has_time has_vec].
   assert (Hsdlt : forall d, sdim h0 = Some d -> d < 3) by apply Hwf.
   shape_cases h0 Hwf; rewrite Hsh in *; cbn [length] in Hsing.
   - (* 3-D inputs *)
@@ -74,14 +75,14 @@ Proof.
       try (assert (Hone := Hsing ltac:(lia)); cbn [nth] in Hone; subst);
       cbn [set_nth option_map];
       (destruct (sdim h0) as [[|[|[|d]]]|] eqn:Ed; [| | | pose proof (Hsdlt _ eq_refl); lia |]);
-      (constructor;
-       [ solve_shape_wf Hsdlt | exact Hfl | reflexivity | reflexivity | solve_shape_wf Hsdlt
+      (constructor; wd Hsh;
+       [ solve_shape_wf Hsdlt | exact Hfl | rewrite ?Ed; reflexivity | reflexivity | solve_shape_wf Hsdlt
        | unfold dims; cbn [shape sdim nth]; rewrite Hsh, ?Ed; reflexivity
        | intros c; destruct c; cbn [class_ok length base_of shape]; intros Hc; first [exact Hc | reflexivity | discriminate Hc]
-       | intros j ho Hj Hsho Hsdo; destruct j as [|j]; [lia|];
-         constructor;
+       | intros j ho Hj Hsho Hsdo; rewrite ?Hsh in Hsho; rewrite ?Ed in Hsdo; destruct j as [|j]; [lia|];
+         constructor; wd Hsh;
          [ solve_shape_wf Hsdlt | solve_shape_wf Hsdlt
-         | unfold shape_wf, ndim; rewrite Hsho, Hsdo; cbn [length]; split; [lia|]; split; [repeat constructor; lia | exact Hsdlt]
+         | unfold shape_wf, ndim; rewrite Hsho, Hsdo; cbn [length]; split; [lia|]; split; [repeat (apply Forall_cons; [lia|]); apply Forall_nil | exact Hsdlt]
          | exact Hsdo | reflexivity
          | intros c; rewrite Hsho; destruct c; cbn [class_ok length base_of shape nth Nat.eqb negb]; intros Hc; first [exact Hc | reflexivity | discriminate Hc]
          | intros c; destruct c; cbn [class_ok length base_of shape nth Nat.eqb negb]; intros Hc; first [exact Hc | reflexivity | discriminate Hc]
@@ -97,14 +98,14 @@ Proof.
       cbn [set_nth option_map];
       cbn [class_ok length base_of nth] in HclsT; try (specialize (HclsT eq_refl eq_refl));
       (destruct (sdim h0) as [[|[|[|d]]]|] eqn:Ed; [| | | pose proof (Hsdlt _ eq_refl); lia |]);
-      (constructor;
-       [ solve_shape_wf Hsdlt | exact Hfl | reflexivity | reflexivity | solve_shape_wf Hsdlt
+      (constructor; wd Hsh;
+       [ solve_shape_wf Hsdlt | exact Hfl | rewrite ?Ed; reflexivity | reflexivity | solve_shape_wf Hsdlt
        | unfold dims; cbn [shape sdim nth]; rewrite Hsh, ?Ed; reflexivity
        | intros c; destruct c; cbn [class_ok length base_of shape nth]; intros Hc; first [exact Hc | reflexivity | exact HclsT | discriminate Hc]
-       | intros j ho Hj Hsho Hsdo; destruct j as [|j]; [lia|];
-         constructor;
+       | intros j ho Hj Hsho Hsdo; rewrite ?Hsh in Hsho; rewrite ?Ed in Hsdo; destruct j as [|j]; [lia|];
+         constructor; wd Hsh;
          [ solve_shape_wf Hsdlt | solve_shape_wf Hsdlt
-         | unfold shape_wf, ndim; rewrite Hsho, Hsdo; cbn [length]; split; [lia|]; split; [repeat constructor; lia | exact Hsdlt]
+         | unfold shape_wf, ndim; rewrite Hsho, Hsdo; cbn [length]; split; [lia|]; split; [repeat (apply Forall_cons; [lia|]); apply Forall_nil | exact Hsdlt]
          | exact Hsdo | reflexivity
          | intros c; rewrite Hsho; destruct c; cbn [class_ok length base_of shape nth Nat.eqb negb]; intros Hc; first [exact Hc | reflexivity | exact HclsT | discriminate Hc]
          | intros c; destruct c; cbn [class_ok length base_of shape nth Nat.eqb negb]; intros Hc; first [exact Hc | reflexivity | discriminate Hc]
@@ -119,14 +120,14 @@ Proof.
       try (assert (Hone := Hsing ltac:(lia)); cbn [nth] in Hone; subst);
       cbn [set_nth option_map];
       (destruct (sdim h0) as [[|[|[|d]]]|] eqn:Ed; [| | | pose proof (Hsdlt _ eq_refl); lia |]);
-      (constructor;
-       [ solve_shape_wf Hsdlt | exact Hfl | reflexivity | reflexivity | solve_shape_wf Hsdlt
+      (constructor; wd Hsh;
+       [ solve_shape_wf Hsdlt | exact Hfl | rewrite ?Ed; reflexivity | reflexivity | solve_shape_wf Hsdlt
        | unfold dims; cbn [shape sdim nth]; rewrite Hsh, ?Ed; reflexivity
        | intros c; destruct c; cbn [class_ok length base_of shape nth]; intros Hc; first [exact Hc | reflexivity | discriminate Hc]
-       | intros j ho Hj Hsho Hsdo; destruct j as [|j]; [lia|];
-         constructor;
+       | intros j ho Hj Hsho Hsdo; rewrite ?Hsh in Hsho; rewrite ?Ed in Hsdo; destruct j as [|j]; [lia|];
+         constructor; wd Hsh;
          [ solve_shape_wf Hsdlt | solve_shape_wf Hsdlt
-         | unfold shape_wf, ndim; rewrite Hsho, Hsdo; cbn [length]; split; [lia|]; split; [repeat constructor; lia | exact Hsdlt]
+         | unfold shape_wf, ndim; rewrite Hsho, Hsdo; cbn [length]; split; [lia|]; split; [repeat (apply Forall_cons; [lia|]); apply Forall_nil | exact Hsdlt]
          | exact Hsdo | reflexivity
          | intros c; rewrite Hsho; destruct c; cbn [class_ok length base_of shape nth Nat.eqb negb]; intros Hc; first [exact Hc | reflexivity | discriminate Hc]
          | intros c; destruct c; cbn [class_ok length base_of shape nth Nat.eqb negb]; intros Hc; first [exact Hc | reflexivity | discriminate Hc]
